@@ -1,10 +1,25 @@
 import UrcuVerif.Src.FutexCallRcu
 /-!
-# defer thread futex (`src/urcu-defer-impl.h`): `wake_up_defer()`
+# defer thread futex (`src/urcu-defer-impl.h`): `wake_up_defer()`, `wait_defer()`
 
 `wake_up_defer()` ⊑ generic waker on `&defer_thread_futex` (`WakePost`), hence ⊑ owner `i` of `Defer/ConcWake.lean` from pc
 `k1` (`Df.simK`; L2's `k0`, `kf` – the store of `head` and the `cmm_smp_mb()` – are in the caller `_defer_rcu`).
 Side condition: FUTEX_WAKE returns an integer `≥ 0` (`WakeRetOk`).
+
+`wait_defer()` ⊑ the defer thread `D` of `Defer/ConcWake.lean` (configuration `decFirst = true`, the code), one whole round
+from L2 pc `d0` back to `d0`, through the local automaton `Df.xstep` (= `Df.lstep` + the composite step `scan f`) and the
+abstraction `absEvD`:
+* `uatomic_dec(&defer_thread_futex)` ↦ `dDec`; `rcu_defer_num_callbacks() = r` ↦ `scan (r ≠ 0)`, `dScanEnd (r ≠ 0)`:
+  the external function's loads of the queues are L2's `dScanQ i` labels, `Df.scan_sound` shows that any such run acts on
+  `D`'s projection like `scan f` with `f` = L2's `found` afterwards; the oracle value of the call is read under the
+  correspondence "non-zero iff `found`" (L2's `found` = some scanned queue was non-empty);
+* `st defer_thread_futex 0` ↦ `dStore0`; `ld defer_thread_futex v` ↦ `dLoad v`; FUTEX_WAIT returned 0 ↦ `dWaitSleep`, `woken`;
+  `errno = EAGAIN` ↦ `dWaitEagain`, `EINTR` ↦ `dWaitIntr`;
+* silent: `cmm_smp_mb()`, `cmm_smp_rmb()`, the load of `defer_thread_stop` (contract `evOkD`: it reads 0; the exit path
+  `defer_thread_stop ≠ 0` – store 0, `pthread_exit()` – is not covered: in the IR `pthread_exit` returns; L2 treats the
+  stop flag as one more queue);
+* rejected: `urcu_die`, `pthread_exit`, any other access to the futex word.
+`exec` never fails, whatever the oracle.
 -/
 set_option maxRecDepth 8192
 set_option linter.unusedSimpArgs false
@@ -19,5 +34,130 @@ theorem src_wake_up_defer (fuel : Nat) (env : Env) (inp : List Val) (hr : WakeRe
     ∃ out, exec fuel «wake_up_defer» env inp = .ok out ∧ WakePost dfF "futex_noasync" env out := by
   unfold WakeRetOk at hr
   wake_cases (wake_leaf [«wake_up_defer»])
+
+/-! ## `wait_defer()` -/
+
+/-- `&defer_thread_stop` -/
+@[simp] def dfStop : Loc := .glob "defer_thread_stop"
+
+def absEvD : Event → Option (List Df.XLabel)
+  | .rmw p l _ _ _ => if l = dfF then (if p = .udec then some [.l .dDec] else none) else some []
+  | .st l v _ => if l = dfF then (if v = .int 0 then some [.l .dStore0] else none) else some []
+  | .ld l v _ =>
+    if l = dfF then
+      match v with
+      | .int n => some [.l (.dLoad n)]
+      | _ => none
+    else some []
+  | .ext name args r =>
+    if name = "rcu_defer_num_callbacks" then some [.scan r.truthy, .l (.dScanEnd r.truthy)]
+    else if name = "futex_noasync" then
+      (if args = waitArgs dfF (-1) then some (if r.truthy then [] else [.l .dWaitSleep, .l .woken]) else none)
+    else if name = "errno" then
+      (if r = .int 11 then some [.l .dWaitEagain] else if r = .int 4 then some [.l .dWaitIntr] else none)
+    else if name = "urcu_die" then none
+    else if name = "pthread_exit" then none
+    else some []
+  | .fence _ => some []
+  | e =>
+    match Event.loc? e with
+    | some l => if l = dfF then none else some []
+    | none => some []
+
+/-- contract: `evOk` for the futex word, and `defer_thread_stop` reads 0 -/
+def evOkD (e : Event) : Bool :=
+  evOk dfF e &&
+    (match e with
+     | .ld l v _ => if l = dfStop then decide (v = .int 0) else true
+     | _ => true)
+
+/-- `f0` = the (stale) content of L2's `found` at the call -/
+def WaitDeferPost (c : DeferWake.Cfg) (f0 : Bool) (env : Env) (out : Out) : Prop :=
+  (∀ l, l ≠ dfF → out.env.priv l = env.priv l) ∧
+  (out.events.all evOkD = true →
+    ∃ ws', accept absEvD (Df.xstep c) ⟨.d0, f0⟩ out.events = some ws' ∧
+      ((out.ctl = .fuel ∧ ws'.dpc = .dwloop) ∨ out.ctl = .blocked ∨
+       ((out.ctl = .normal ∨ out.ctl = .ret none) ∧ ws'.dpc = .d0)))
+
+open Lean.Parser.Tactic in
+macro "df_abs" "[" ts:simpLemma,* "]" : tactic =>
+  `(tactic| simp [accept_nil, accept_cons, accept_append_eq, all_append_iff, absEvD, evOkD, evOk, runA, Df.xstep, Df.lstep,
+      waitArgs, Event.loc?, truthy_int, truthy_ptr, exitCtl, *, $ts,*])
+
+set_option hygiene false in
+macro "df_pre_leaf" : tactic => `(tactic| (
+  fx_exec [WaitDeferPost]
+  first
+  | done
+  | (generalize hX : exec fuel L _ _ = X
+     obtain ⟨out, rfl, hE, hC, h⟩ := hloop _ _ _ hX
+     refine ⟨_, rfl, ?_, ?_⟩
+     · intro l hl; simp_all
+     · intro hok
+       simp only [List.all_cons, all_append_iff, List.all_nil, Bool.and_eq_true] at hok
+       first
+       | (simp [evOkD, evOk, *] at hok; done)
+       | (obtain ⟨ws', hw, hp⟩ := h (by simp_all)
+          refine ⟨ws', by df_abs [hw], ?_⟩
+          rcases hp with ⟨h1, rfl⟩ | h1 | ⟨h1, rfl⟩ <;> simp_all))
+  | (df_abs [] <;> (try (intros; simp_all; done)))))
+
+theorem src_wait_defer (c : DeferWake.Cfg) (hc : c.decFirst = true) (f0 : Bool) (fuel : Nat) (env : Env)
+    (inp : List Val) :
+    ∃ out, exec fuel «wait_defer» env inp = .ok out ∧ WaitDeferPost c f0 env out := by
+  simp only [«wait_defer», block]
+  generalize hLS : Stmt.loop _ = L
+  have hloop : ∀ env1 inp1 X, exec fuel L env1 inp1 = X →
+      ∃ out, X = .ok out ∧ out.env.priv = env1.priv ∧
+        (out.ctl = .fuel ∨ out.ctl = .blocked ∨ out.ctl = .normal ∨ out.ctl = .ret none) ∧
+        (out.events.all evOkD = true →
+          ∃ ws', accept absEvD (Df.xstep c) ⟨.dwloop, false⟩ out.events = some ws' ∧
+            ((out.ctl = .fuel ∧ ws' = ⟨.dwloop, false⟩) ∨ out.ctl = .blocked ∨
+             ((out.ctl = .normal ∨ out.ctl = .ret none) ∧ ws' = ⟨.d0, false⟩))) := by
+    subst hLS
+    intro env0 inp0 X hX
+    obtain ⟨out, h1, h2, hC, h3⟩ := loop_inv (accept absEvD (Df.xstep c)) (accept_nil _ _) (accept_append _ _) evOkD
+      (fun e => e.priv = env0.priv) WaitCtl (fun _ s => s = ⟨.dwloop, false⟩)
+      (fun cc _ s => cc = .blocked ∨ ((cc = .brk ∨ cc = .ret none) ∧ s = ⟨.d0, false⟩)) hX
+      (by intro env1 inp1 hE1; wait_body_with (fx_exec [WaitCtl] <;> df_abs [])) rfl
+    refine ⟨out, h1, h2, ?_, ?_⟩
+    · rcases hC with h | ⟨cc, hcc, hn, he⟩
+      · exact .inl h
+      · unfold WaitCtl at hcc
+        rcases hcc with rfl | rfl | rfl | rfl | rfl <;> simp_all [exitCtl]
+    · intro hok
+      obtain ⟨ws', hw, hp⟩ := h3 _ rfl hok
+      refine ⟨ws', hw, ?_⟩
+      rcases hp with ⟨h4, h5⟩ | ⟨cc, hc1, hc2, hc3⟩
+      · exact .inl ⟨h4, h5⟩
+      · rcases hc2 with rfl | ⟨rfl | rfl, rfl⟩
+        · exact .inr (.inl hc3)
+        · exact .inr (.inr ⟨.inl hc3, rfl⟩)
+        · exact .inr (.inr ⟨.inr hc3, rfl⟩)
+  clear hLS
+  cases inp with
+  | nil => df_pre_leaf
+  | cons d r1 =>
+    cases r1 with
+    | nil => df_pre_leaf
+    | cons st r2 =>
+      by_cases hst : st = .int 0
+      · subst hst
+        cases r2 with
+        | nil => df_pre_leaf
+        | cons n r3 =>
+          by_cases hn : n = .int 0
+          · subst hn; df_pre_leaf
+          · have hnt := truthy_of_ne hn; df_pre_leaf
+      · have hstt := truthy_of_ne hst
+        cases r2 with
+        | nil => df_pre_leaf
+        | cons x r3 =>
+          cases r3 with
+          | nil => df_pre_leaf
+          | cons n r4 =>
+            by_cases hn : n = .int 0
+            · subst hn; df_pre_leaf
+            · have hnt := truthy_of_ne hn; df_pre_leaf
 
 end UrcuVerif.Src.Futex
